@@ -186,11 +186,13 @@ def _varint_quic(n):
 
 
 # --- DNS wire
-_label_ok = st.sampled_from([b"www", b"example", b"com", b"a", b"xn--bcher-kva", b"_tcp", b"x-y", b"a" * 63, b"mail", b"org", b"A", b"Example"])
 # labels / texts that look like some other encoding of record data (hex dump, IP address, YAML/JSON scalars and syntax)
-_label_alike = st.sampled_from([b"0x", b"0x41", b"0xcafe", b"0X41", b"0xzz", b"0x0", b"1", b"2", b"10", b"192", b"168", b"255", b"256", b"00", b"1e3",
-                                b"null", b"true", b"no", b"~", b"-a", b"-", b"--", b"a-", b"123", b"0", b"ff", b"dead", b"beef", b"_", b"invalid"])
-_label = st.one_of(*([_label_ok] * 10), *([_label_alike] * 4), st.sampled_from([b"a b", b"\x1b[31m", b"\xc3\xa9", b"\xff", b"\x00", b"*"]))
+_LABEL_OK = [b"www", b"example", b"com", b"a", b"xn--bcher-kva", b"_tcp", b"x-y", b"a" * 63, b"mail", b"org", b"A", b"Example"]
+_LABEL_ALIKE = [b"0x", b"0x41", b"0xcafe", b"0X41", b"0xzz", b"0x0", b"1", b"2", b"10", b"192", b"168", b"255", b"256", b"00", b"1e3",
+                b"null", b"true", b"no", b"~", b"-a", b"-", b"--", b"a-", b"123", b"0", b"ff", b"dead", b"beef", b"_", b"invalid"]
+_LABEL_EXOTIC = [b"a b", b"\x1b[31m", b"\xc3\xa9", b"\xff", b"\x00", b"*"]
+# NB: weights by repetition only work inside sampled_from (one_of prunes repeated identical branches)
+_label = st.sampled_from(_LABEL_OK * 7 + _LABEL_ALIKE * 2 + _LABEL_EXOTIC)
 _txt_alike = st.sampled_from([
     b"", b"0x", b"0x41", b"0x4", b"0xzz", b"0X41", b"x0x41", b" 0x41", b"0x52908400098527886E0F7030069857D2E4169EE7", b"0x41 (invalid TXT data)", b"0x (",
     b"1.2.3.4", b"192.168.0.1", b"::1", b"2001:db8::1", b"256.1.1.1", b"12345", b"-1", b"1e3", b"0o17", b"0b1", b"1_000", b".5", b"+1",
